@@ -1,7 +1,7 @@
 #!/bin/bash
 # tools/verify_mut.sh <Cxx> <i>: confirm a seeded change in its scratch worktree:
 # suite passes with it, demo fails with it, demo passes without it.
-P=$1; I=$2; WT=/tmp/mut/$P
+P=$1; I=$2; WT=${MUTDIR:-/tmp/mut}/$P
 export CARGO_TARGET_DIR=$WT/target CARGO_NET_OFFLINE=true
 cd $WT || exit 2
 git checkout -q -- src; rm -rf tests
